@@ -7,6 +7,7 @@ import (
 	"sort"
 	"sync"
 	"sync/atomic"
+	"time"
 
 	"github.com/0xrawsec/sod"
 	"github.com/0xrawsec/sod/verifshim/vfs"
@@ -203,6 +204,13 @@ func (r *Runner) doConc(g int, op *Op) (ret cev) {
 	case "aidx":
 		var t []int64
 		err = r.db.AssignIndex(newObj(r.cfg.Plain), "K", &t)
+	case "closecall":
+		// Close, let the flusher notice (its poll period is scaled down), then use the handle again
+		err = r.db.Close()
+		time.Sleep(8 * time.Millisecond)
+		if err == nil {
+			ret.n, err = r.db.Count(newObj(r.cfg.Plain))
+		}
 	case "switch":
 		c := r.cfg
 		c.Cache, c.Async = op.Cfg.Cache, op.Cfg.Async
